@@ -222,7 +222,12 @@ func c11Gen(rt *rapid.T) *hist.Case {
 		case 0, 1, 2, 3:
 			return hist.Action{Kind: "publish", Client: 1, Topic: "t/a", QoS: byte(rapid.IntRange(0, 2).Draw(rt, "qos"))}
 		case 4, 5, 6:
-			return hist.Action{Kind: "ack", Client: 0, Index: rapid.IntRange(0, 4).Draw(rt, "idx")}
+			a := hist.Action{Kind: "ack", Client: 0, Index: rapid.IntRange(0, 4).Draw(rt, "idx")}
+			if rapid.IntRange(0, 3).Draw(rt, "failure-code") == 0 {
+				// an acknowledgement that carries a failure reason ends the exchange and returns the quota just the same
+				a.Reason = pick(rt, "reason", []byte{0x80, 0x83, 0x87, 0x97, 0x99})
+			}
+			return a
 		case 7, 8:
 			// the client's own publishes: QoS 1/2 only while it has fewer than the server's Receive Maximum unfinished
 			return hist.Action{Kind: "publish", Client: 0, Topic: "u/x", QoS: byte(rapid.IntRange(1, 2).Draw(rt, "oqos")), Limit: int(srv)}
@@ -249,7 +254,7 @@ func c11Gen(rt *rapid.T) *hist.Case {
 }
 
 func TestC11(t *testing.T) {
-	r := evid.New("C11", "rapid: a v5 client with Receive Maximum 1..4 (or absent) on a QoS 2 subscription against a server Receive Maximum 1..4; bursts of QoS 0/1/2 publishes towards the client and from the client; the client acknowledges in generated order and timing but never has more unfinished QoS 1/2 publishes of its own than the server's Receive Maximum (enforced by the executor), sends QoS 0 freely, also publishes QoS 1/2 to a topic its write permission denies (refused but acknowledged), optionally reconnects with session present; the history ends with the client acknowledging everything promptly; oracle: (a) unacknowledged QoS>0 PUBLISH packets on a connection never exceed the declared Receive Maximum, (b) no DISCONNECT 0x93 and no broker-side close, (c) after the prompt-acknowledgement phase every entitled QoS>0 message has been transmitted; non-trivial = the outbound window was full at least once; distinct by history")
+	r := evid.New("C11", "rapid: a v5 client with Receive Maximum 1..4 (or absent) on a QoS 2 subscription against a server Receive Maximum 1..4; bursts of QoS 0/1/2 publishes towards the client and from the client; the client acknowledges in generated order and timing (one acknowledgement in four carries a failure reason code) but never has more unfinished QoS 1/2 publishes of its own than the server's Receive Maximum (enforced by the executor), sends QoS 0 freely, also publishes QoS 1/2 to a topic its write permission denies (refused but acknowledged), optionally reconnects with session present; the history ends with the client acknowledging everything promptly; oracle: (a) unacknowledged QoS>0 PUBLISH packets on a connection never exceed the declared Receive Maximum, (b) no DISCONNECT 0x93 and no broker-side close, (c) after the prompt-acknowledgement phase every entitled QoS>0 message has been transmitted; non-trivial = the outbound window was full at least once; distinct by history")
 	defer r.Finish(t)
 	if evid.ReplayMode() {
 		evid.Replay(t, r, replayPath(), c11Check)
